@@ -332,6 +332,9 @@ def obligations(prop):
         wrap("C15_G7_control", generate_sprt, "source:control")
     if prop == "C13":
         wrap("C13_G8_bisection", generate_bisect, "source:control")
+    from . import loops
+    if prop in loops.BY_PROP:
+        wrap(f"{prop}_G9_loops", lambda: loops.generate_loops(prop), "source:loop")
     return out
 
 
